@@ -532,11 +532,64 @@ def kernel_validation(ctx, cases):
     ctx.extra["kernel_validation"] = {"sequences_on_real_kernel": done, "agree_with_emulation": same}
 
 
+KNOWN_CLASSES = ("hashvar-fixed", "iter-empty")     # findings/C09.json; only used to pick what is worth shrinking
+
+
+class _Collect:
+    """stands in for ctx while a case is run: failures are forwarded (new ones after shrinking)"""
+
+    def __init__(self):
+        import collections
+        self.failures, self.stats = [], collections.Counter()
+
+    def require(self, cond, what, case, observed=None, cls=None):
+        if not cond:
+            self.failures.append((cls, what, observed))
+        return cond
+
+
+def new_failure(case):
+    col = _Collect()
+    try:
+        run_case(col, case)
+    except Exception:
+        return None
+    return next((f for f in col.failures if f[0] not in KNOWN_CLASSES), None)
+
+
+def shrink(case):
+    """drop operations (then local variables) as long as a failure outside the known classes remains"""
+    ops, i, budget = list(case["ops"]), 0, 400
+    while i < len(ops) and budget > 0:
+        budget -= 1
+        trial = dict(case, ops=ops[:i] + ops[i + 1:])
+        if new_failure(trial):
+            ops = trial["ops"]
+        else:
+            i += 1
+    case = dict(case, ops=ops)
+    if case["locals"] and new_failure(dict(case, locals=[])):
+        case = dict(case, locals=[])
+    return case
+
+
 def run(ctx):
-    cases = [gen(ctx.rng) for _ in range(ctx.n(2500, 40000))]
+    cases = [gen(ctx.rng) for _ in range(ctx.n(2000, 40000))]
     impl = []
+    shrunk = 0
     for c in cases:
-        outs, imp = run_case(ctx, c)
+        col = _Collect()
+        outs, imp = run_case(col, c)
+        ctx.stats.update(col.stats)
+        for cls, what, observed in col.failures:
+            if cls not in KNOWN_CLASSES and shrunk < 3:
+                shrunk += 1
+                small = shrink(c)
+                f = new_failure(small)
+                if f:
+                    ctx.require(False, f[1], small, f[2], f[0])
+                    continue
+            ctx.require(False, what, c, observed, cls)
         ctx.case(c, nontrivial=bool(imp and imp.crossed), kind="asm-error" if imp is None else "case")
         for o, r in zip(c["ops"], outs[1:]):
             ctx.stats[o[0] + ":" + r.split(" ")[0]] += 1
@@ -550,8 +603,11 @@ def run(ctx):
 
 
 def replay(ctx, case):
-    outs, imp = run_case(ctx, case)
-    return {"outputs": outs}
+    col = _Collect()
+    outs, imp = run_case(col, case)
+    for cls, what, observed in col.failures:
+        ctx.require(False, what, case, observed, cls)
+    return {"outputs": outs, "failures": [{"class": cls, "what": what, "observed": observed} for cls, what, observed in col.failures]}
 
 
 LEVEL_TEXT = ("Lean 4 proofs over a hand-written model: Structure members occupy pairwise disjoint ranges; Python's pack_into(fmt, data, rel) and the "
